@@ -85,6 +85,10 @@ impl SBlock {
 pub struct Scan {
     pub metadata: Option<String>,
     pub blocks: Vec<SBlock>,
+    /// a backslash escape of a punctuation character stands in running text (outside code blocks,
+    /// code spans, raw HTML and tables): the domain of the escaping finding, judged on the source
+    #[serde(default)]
+    pub backslash_escape_in_text: bool,
 }
 
 pub fn options() -> Options {
@@ -101,6 +105,8 @@ pub fn scan(text: &str) -> Scan {
     let mut out: Vec<SBlock> = vec![];
     let mut metadata: Option<String> = None;
     let mut in_meta = false;
+    // byte ranges whose content is taken verbatim (code spans, inline HTML; code and HTML blocks are added at the end)
+    let mut verbatim: Vec<(usize, usize)> = vec![];
 
     fn close_implicit(stack: &mut Vec<Frame>, out: &mut Vec<SBlock>) {
         // if top is an implicit paragraph, pop it into its parent
@@ -272,7 +278,10 @@ pub fn scan(text: &str) -> Scan {
                     _ => push_inline(&mut stack, SInline::Text(t.to_string()), &range),
                 }
             }
-            Event::Code(t) => push_inline(&mut stack, SInline::Code(t.to_string()), &range),
+            Event::Code(t) => {
+                verbatim.push((range.start, range.end));
+                push_inline(&mut stack, SInline::Code(t.to_string()), &range)
+            }
             Event::Html(t) => match stack.last_mut() {
                 Some(Frame::Block(b)) if matches!(b.kind, BKind::Html) => b.text.push_str(&t),
                 _ => {
@@ -282,7 +291,10 @@ pub fn scan(text: &str) -> Scan {
                     attach_block(&mut stack, &mut out, b);
                 }
             },
-            Event::InlineHtml(t) => push_inline(&mut stack, SInline::Html(t.to_string()), &range),
+            Event::InlineHtml(t) => {
+                verbatim.push((range.start, range.end));
+                push_inline(&mut stack, SInline::Html(t.to_string()), &range)
+            }
             Event::SoftBreak => push_inline(&mut stack, SInline::SoftBreak, &range),
             Event::HardBreak => push_inline(&mut stack, SInline::HardBreak, &range),
             Event::Rule => {
@@ -305,7 +317,27 @@ pub fn scan(text: &str) -> Scan {
             attach_block(&mut stack, &mut out, b);
         }
     }
-    Scan { metadata, blocks: out }
+    // backslash + ASCII punctuation outside verbatim regions
+    fn collect_verbatim(bs: &[SBlock], v: &mut Vec<(usize, usize)>) {
+        for b in bs {
+            // (escapes inside table cells are written back escaped by the table writer: they are
+            // not part of the escaping finding)
+            if matches!(b.kind, BKind::Code { .. } | BKind::Html | BKind::Table) {
+                v.push(b.span);
+            }
+            collect_verbatim(&b.children, v);
+        }
+    }
+    collect_verbatim(&out, &mut verbatim);
+    let bytes = text.as_bytes();
+    let mut escape = false;
+    for i in 0..bytes.len().saturating_sub(1) {
+        if bytes[i] == b'\\' && bytes[i + 1].is_ascii_punctuation() && !verbatim.iter().any(|(a, z)| *a <= i && i < *z) {
+            escape = true;
+            break;
+        }
+    }
+    Scan { metadata, blocks: out, backslash_escape_in_text: escape }
 }
 
 fn ensure_para(stack: &mut Vec<Frame>, span: &Range<usize>) {
@@ -419,3 +451,4 @@ impl Lines {
         self.starts.len()
     }
 }
+
